@@ -78,6 +78,11 @@ def check_call(rec: Rec, call, origin):
             return "ok"
     for k, v in call.get("pins", {}).items():
         got = o.component(want_cc, bban, k)
+        if k == "bank_code" and "branch_code" not in call["pins"] and combined_span(want_cc) and len(v) == combined_span(want_cc)[1] - combined_span(want_cc)[0]:
+            # a bank code pinned at the combined bank+branch width (what the registries of such countries list): it appears
+            # unchanged across the two adjacent fields
+            a_, e_ = combined_span(want_cc)
+            got = bban[a_:e_]
         if got != v:
             rec.fail(f"pin_not_honoured|{k}|{'registry' if call['use_registry'] else 'noregistry'}", "pins_unchanged", inp,
                      {k: v}, {k: got, "result": s})
@@ -96,6 +101,9 @@ def check_call(rec: Rec, call, origin):
 
 
 def replay(rec, case):
+    if case["input"].get("origin") == "configurations":
+        from ._configs import replay as _r
+        return _r(rec, case)
     i = case["input"]
     if "batch" in i:
         cross_process(rec, i["batch"], [i.get("hashseed", "0")])
@@ -111,6 +119,15 @@ def replay(rec, case):
         if before != after:
             rec.fail("differs_after_other_use|replay", "same_seed_same_result", {**call, "origin": "touch"}, before, after)
     check_call(rec, call, "replay")
+
+
+def combined_span(cc):
+    """(start, end) of bank field + branch field if the country has both and the branch field follows the bank field."""
+    pos = oracle().positions(cc)
+    b, r = pos.get("bank_code"), pos.get("branch_code")
+    if b and r and b[1] > b[0] and r[1] > r[0] and b[1] == r[0]:
+        return b[0], r[1]
+    return None
 
 
 def draw_pins(rng, cc, p=0.3):
@@ -130,6 +147,18 @@ def draw_pins(rng, cc, p=0.3):
                 if all(ch in gens_class(cl[a + i]) for i, ch in enumerate(cand)):
                     v = cand
             pins[k] = v
+    span = combined_span(cc)
+    if span and rng.random() < 0.2:
+        # the bank code pinned at the combined bank+branch width, branch not pinned: a listed code of that width verbatim,
+        # or a conforming text
+        a, e = span
+        v = conforming(rng, cl[a:e], e - a)
+        fit = [x.get("bank_code") for x in listed if x.get("bank_code") and len(x["bank_code"]) == e - a
+               and all(ch in gens_class(cl[a + i]) for i, ch in enumerate(x["bank_code"]))]
+        if fit and rng.random() < 0.6:
+            v = rng.choice(fit)
+        pins["bank_code"] = v
+        pins.pop("branch_code", None)
     # keyword order is the caller's business: any order of the pinned components
     items = list(pins.items())
     rng.shuffle(items)
@@ -196,6 +225,21 @@ def shard_country(arg):
                 nt = bool(pins) or (use_registry and cc in reginfo()["per_cc"])
                 rec.case(f"{cls}-{'registry' if use_registry else 'noregistry'}-{'pinned' if pins else 'free'}-{t}",
                          json.dumps(call, sort_keys=True) if nt else None, call if j in (0, 5) else None)
+    if cc and combined_span(cc):
+        # the bank code pinned at the combined bank+branch width (enumerated: both classes, both modes, a listed code of that
+        # width verbatim where the registry has one, and a conforming text)
+        a, e = combined_span(cc)
+        cl = gen().classes(cc)
+        listed = reginfo()["per_cc"].get(cc) or []
+        fit = sorted({x["bank_code"] for x in listed if x.get("bank_code") and len(x["bank_code"]) == e - a
+                      and all(ch in gens_class(cl[a + i]) for i, ch in enumerate(x["bank_code"]))})
+        vals = [conforming(rng, cl[a:e], e - a)] + ([rng.choice(fit)] if fit else [])
+        for cls in ("IBAN", "BBAN"):
+            for use_registry in (True, False):
+                for v in vals:
+                    call = {"cls": cls, "cc": cc, "seed": rng.randrange(2 ** 32), "use_registry": use_registry, "pins": {"bank_code": v}}
+                    t = check_call(rec, call, "combined-width-pin")
+                    rec.case("pin-combined-width" + ("-listed" if v in fit else ""), json.dumps(call, sort_keys=True))
     rec.classes[f"ok-{cc or 'ANY'}"] = tags["ok"]
     return rec
 
@@ -288,5 +332,7 @@ def run(ctx):
     ctx.rec.classes["cross-process-comparisons"] += len(batch) * len(hs)
     ctx.extra["hash_seeds"] = hs
     ctx.rec.sample("cross-process", {"batch_size": len(batch), "first": batch[0], "hashseeds": hs})
-    ctx.require_classes("pin-from-other-mode", "after-touch", "IBAN-registry-pinned-ok", "IBAN-noregistry-pinned-ok", "IBAN-registry-free-ok", "BBAN-registry-free-ok",
+    from ._configs import stage as _config_stage
+    _config_stage(ctx, ['random'])
+    ctx.require_classes("pin-combined-width", "pin-combined-width-listed", "pin-from-other-mode", "after-touch", "IBAN-registry-pinned-ok", "IBAN-noregistry-pinned-ok", "IBAN-registry-free-ok", "BBAN-registry-free-ok",
                         "hyp-pinned-ok", "cross-process-comparisons", *[f"ok-{cc or 'ANY'}" for cc in ccs])
